@@ -1282,6 +1282,14 @@ theorem boundary_pinned_curve_asserts :
 
 /-! ## non-vacuity -/
 
+/-- numpy broadcasting of value shapes as modelled for `outer_sum/outer_product` (front padding):
+a vector against a matrix runs along the matrix rows' entries (last axis) -/
+example : broadcastShape [2] [2, 2] = some [2, 2] ∧ broadcastShape [3] [2, 3] = some [2, 3] ∧
+    broadcastShape [] [2, 2] = some [2, 2] ∧ broadcastShape [3] [2, 2] = none ∧
+    (List.range 4).map (bcastIndex [2, 2] [2]) = [0, 1, 0, 1] ∧
+    (List.range 6).map (bcastIndex [2, 3] [2, 1]) = [0, 0, 0, 1, 1, 1] := by decide
+
+
 example : ((3 : ℚ) / 5) ^ 2 + (4 / 5) ^ 2 = 1 := by norm_num
 example : (2 * ((1 : ℚ) / 2) * (1 - 1 / 2)) ^ 2 = 4 * (1 - 1 / 2) ^ 2 * (1 / 2) ^ 2 := by norm_num
 example : (1 - (1 / 2 : ℚ)) ^ 2 + 2 * (1 / 2) * (1 - 1 / 2) * (3 / 5) + (1 / 2) ^ 2 ≠ 0 := by norm_num
